@@ -194,6 +194,217 @@ def gen_case(rng, k, S=None):
     return case
 
 
+# ------------------------------------------------------------------ replication inside the loop (round 7)
+REP_VARS = ['N', 'replicas', 'n_w']
+REP_SOURCES = ['literal', 'default_global', 'platform_global', 'default_stage_only', 'default_stage_over_global',
+               'default_stage_over_global', 'platform_stage', 'stage_variable_of_another_stage']
+
+
+def rep_vars_for(rng, source, var, n, at, stages):
+    """-> (vars, platform): variables.<platform>.{global, stages} such that the variable has the value n for a
+    component of workflow stage `at` by the layering  default global < platform global < default stage < platform
+    stage  (a default stage value is hidden by a platform global one); every other scope holds a DIFFERENT value"""
+    other = lambda: rng.choice([x for x in (1, 2, 3, 4) if x != n])
+    v = {'dg': {}, 'ds': {}, 'pg': {}, 'ps': {}}
+    platform = None
+    if source == 'default_global':
+        v['dg'][var] = n
+    elif source == 'platform_global':
+        platform = 'plat'
+        v['pg'][var] = n
+        v['dg'][var] = other()      # (a package is validated for the default platform too: the variable must exist)
+    elif source == 'default_stage_only':
+        v['ds'][str(at)] = {var: n}
+    elif source == 'default_stage_over_global':
+        v['dg'][var] = other()
+        v['ds'][str(at)] = {var: n}
+    elif source == 'platform_stage':
+        platform = 'plat'
+        v['ps'][str(at)] = {var: n}
+        v['dg'][var] = other()
+        if rng.random() < 0.4:
+            v['pg'][var] = other()
+        if rng.random() < 0.4:
+            v['ds'][str(at)] = {var: other()}
+    elif source == 'stage_variable_of_another_stage':
+        v['dg'][var] = n
+        for st in stages:
+            if st != at and rng.random() < 0.7:
+                v['ds'][str(st)] = {var: other()}
+    if source != 'literal' and rng.random() < 0.3:
+        v['dg']['unrelated'] = 7
+    return v, platform
+
+
+def lookup_var(case, var, at):
+    """the value of a variable for a component of workflow stage `at` (FlowIRConcrete.instance layering)"""
+    v = case.get('vars') or {}
+    plat = bool(case.get('platform'))
+    ps = v.get('ps', {}).get(str(at), {}) if plat else {}
+    pg = v.get('pg', {}) if plat else {}
+    ds = v.get('ds', {}).get(str(at), {})
+    for scope in (ps, {} if var in pg else ds, pg, v.get('dg', {})):
+        if var in scope:
+            return scope[var]
+    return None
+
+
+def replica_counts(loop, case):
+    """(stage, name) -> number of replicas (0 = not replicated) of every looped component: its own
+    workflowAttributes.replicate (a number, or a variable looked up in the scopes of ITS stage), else inherited from
+    a replicated component it references without aggregating (FlowIR.propagate_replicate)"""
+    counts = {}
+    for _pass in range(len(loop['comps']) + 1):
+        for c in loop['comps']:
+            key = (c['stage'], c['name'])
+            n = 0
+            if c.get('agg'):
+                n = 0
+            elif c.get('rep') is not None:
+                n = c['rep'] if isinstance(c['rep'], int) else lookup_var(case, c['rep'], loop['S'] + c['stage'])
+            else:
+                for r in c['refs']:
+                    if r[0] == 'C':
+                        n = max(n, counts.get((c['stage'] if r[1] is None else r[1], r[2]), 0))
+            counts[key] = n or 0
+    return counts
+
+
+def is_replicated(case):
+    return any(c.get('rep') is not None for l in c05_impl.loops_of(case) for c in l['comps'])
+
+
+def expand_case(case):
+    """the DoWhile document with the replication written out: a looped component c with n > 0 replicas becomes the n
+    looped components c0 .. c(n-1) with the references of c (a reference to a replicated component: to the replica
+    with the same index); an aggregating component lists, in place of a reference to a replicated component, one
+    reference per replica.  The statement (and Loop.Model.unroll) is then read on this document: instances 0..k of
+    EVERY replica, placeholders stageS.c0 .. stageS.c(n-1)"""
+    out = dict((k, v) for k, v in case.items() if k not in ('vars', 'platform', 'xouts', 'xcomps', 'rep_source'))
+    counts = replica_counts(case, case)
+
+    def widen(refs, stage, index):
+        res = []
+        for r in refs:
+            n = counts.get((stage if r[1] is None else r[1], r[2]), 0) if r[0] == 'C' else 0
+            if n == 0:
+                res.append(list(r))
+            elif index is not None:
+                res.append(['C', r[1], '%s%d' % (r[2], index), r[3], r[4]])
+            else:
+                res += [['C', r[1], '%s%d' % (r[2], j), r[3], r[4]] for j in range(n)]
+        return res
+
+    comps = []
+    for c in case['comps']:
+        n = counts[(c['stage'], c['name'])]
+        plain = dict((k, v) for k, v in c.items() if k not in ('rep', 'agg'))
+        if n == 0:
+            comps.append(dict(plain, refs=widen(c['refs'], c['stage'], None)))
+        else:
+            comps += [dict(plain, name='%s%d' % (c['name'], j), refs=widen(c['refs'], c['stage'], j)) for j in range(n)]
+    out['comps'] = comps
+    outs = []
+    for o in case['outs']:
+        refs = []
+        for r in o['refs']:
+            n = counts.get((r[0] - case['S'], r[1]), 0)
+            refs += [list(r)] if n == 0 else [[r[0], '%s%d' % (r[1], j), r[2], r[3]] for j in range(n)]
+        outs.append({'name': o['name'], 'stage': o['stage'], 'refs': refs})
+    out['outs'] = outs
+    return out
+
+
+def gen_rcase(rng, k, source=None):
+    """a DoWhile whose body is replicated: [pre] -> work (replicate: number | '%(var)s') [-> post (replicated by
+    propagation)] -> gather (aggregate) [-> stop]; the loop-carried binding is produced by a component after the
+    aggregation.  The number of replicas (1..3) is a literal or comes from a variable defined in one of the scopes
+    REP_SOURCES; the scopes that must NOT win hold other values.  Import stage 0..2, the replicated part in the first
+    or second stage of the body, the aggregation in the same or the next stage"""
+    S = rng.choice([0, 0, 1, 2])
+    source = source or rng.choice(REP_SOURCES)
+    n = rng.choice([1, 2, 2, 3])
+    var = rng.choice(REP_VARS)
+    names = rng.sample([x for x in COMP_NAMES if x not in ('a-b',)], 5)
+    pre, work, post, gather, stop = names
+    has_pre = rng.random() < 0.4
+    wst = 1 if (has_pre and rng.random() < 0.5) else 0
+    gst = wst + (1 if rng.random() < 0.35 else 0)
+    comps = []
+    if has_pre:
+        comps.append({'name': pre, 'stage': 0, 'refs': [['B', 'number', '']]})
+    wrefs = [['C', 0 if wst else None, pre, '', rng.choice(['ref', 'output'])]] if has_pre else []
+    if not has_pre or rng.random() < 0.5:
+        wrefs.append(['B', 'number', ''])
+    if rng.random() < 0.4:
+        wrefs.append(['B', 'base', ''])
+    comps.append({'name': work, 'stage': wst, 'refs': wrefs, 'rep': n if source == 'literal' else var})
+    last = work
+    if rng.random() < 0.4:
+        comps.append({'name': post, 'stage': wst, 'refs': [['C', None, work, rng.choice(['', 'f']), 'output']]})
+        last = post
+    grefs = [['C', wst if gst != wst or rng.random() < 0.3 else None, last, '', rng.choice(['ref', 'output'])]]
+    if last != work and rng.random() < 0.5:
+        grefs.append(['C', wst if gst != wst else None, work, 'f', 'ref'])
+    comps.append({'name': gather, 'stage': gst, 'refs': grefs, 'agg': True})
+    tail = gather
+    if rng.random() < 0.7:
+        comps.append({'name': stop, 'stage': gst, 'refs': [['C', None, gather, '', 'output']]})
+        tail = stop
+    ibind = [['number', 'output']]
+    binds = [['number', [0, 'gen', '']]]
+    if any(r[:2] == ['B', 'base'] for r in wrefs):
+        ibind.append(['base', 'ref'])
+        binds.append(['base', [0, 'gen', '']])
+    lbp = rng.choice([gather, tail])
+    loopb = [['number', [gst if gst or rng.random() < 0.5 else None, lbp, '']]]
+    cond = [gst if gst or rng.random() < 0.5 else None, tail, rng.choice(['', 'f'])]
+    top = S + gst
+    ost = top + rng.choice([0, 1, 1])
+    orefs = []
+    for nm in set([gather, tail]):
+        for m in ('ref', 'output', 'loopref', 'loopoutput'):
+            if rng.random() < 0.4:
+                orefs.append([top, nm, '', m])
+    if not orefs:
+        orefs.append([top, gather, '', 'ref'])
+    outs = [{'name': 'rep', 'stage': ost, 'refs': orefs}]
+    if rng.random() < 0.4:
+        # an aggregating consumer outside the loop reads the newest instance of EVERY replica
+        outs.append({'name': 'obs', 'stage': max(ost, S + wst + 1), 'agg': True,
+                     'refs': [[S + wst, last, '', rng.choice(['ref', 'output'])]]})
+    srcs = [['gen', 0]]
+    used = set([0]) | set(S + c['stage'] for c in comps) | set(o['stage'] for o in outs)
+    for st in range(max(used) + 1):
+        if st not in used:
+            srcs.append(['fill%d' % st, st])
+    stages = sorted(set(range(max(used) + 1)))
+    case = {'S': S, 'dwname': rng.choice(['dw', 'loop-1']), 'srcs': srcs, 'comps': comps, 'ibind': ibind,
+            'binds': binds, 'loopb': loopb, 'cond': cond, 'outs': outs, 'k': k, 'rep_source': source}
+    case['vars'], case['platform'] = rep_vars_for(rng, source, var, n, S + wst, stages)
+    if rng.random() < 0.4:
+        case['ctl'] = {'start': rng.randint(0, S), 'inspect': rng.choice(['end', 'each', 'none'])}
+    return case
+
+
+def replicated_case(k, S, dg, ds, rep='N', ctl=None):
+    """boundary case of replication inside the loop (the package of the DoWhile tests with its 'work' replicated):
+    work (replicate) -> gather (aggregate) -> stop, imported in stage S; the number of replicas is a literal or the
+    variable N of variables.default.global / variables.default.stages"""
+    case = {'S': S, 'dwname': 'simple-do-while', 'srcs': [['gen', 0]] + [['fill%d' % st, st] for st in range(1, S)],
+            'comps': [{'name': 'work', 'stage': 0, 'refs': [['B', 'number', '']], 'rep': rep},
+                      {'name': 'gather', 'stage': 0, 'refs': [['C', None, 'work', '', 'output']], 'agg': True},
+                      {'name': 'stop', 'stage': 0, 'refs': [['C', None, 'gather', '', 'output']]}],
+            'ibind': [['number', 'output']], 'binds': [['number', [0, 'gen', '']]],
+            'loopb': [['number', [None, 'gather', '']]], 'cond': [None, 'stop', ''],
+            'outs': [{'name': 'report', 'stage': S + 1, 'refs': [[S, 'gather', '', 'ref'], [S, 'gather', '', 'loopref']]},
+                     {'name': 'obs', 'stage': S + 1, 'agg': True, 'refs': [[S, 'work', '', 'ref']]}],
+            'k': k, 'vars': {'dg': dg, 'ds': ds, 'pg': {}, 'ps': {}}, 'platform': None}
+    if ctl:
+        case['ctl'] = ctl
+    return case
+
+
 def plain_ids(case):
     return set((s[1], s[0]) for s in case['srcs']) | set((o['stage'], o['name']) for o in case['outs'])
 
@@ -804,6 +1015,11 @@ def _drive(case):
 
 
 def explore(ctx, cases, parallel=True):
+    for c in cases:
+        if is_replicated(c):
+            # the references of the outside consumers as the replicated workflow holds them (resolved by the driver)
+            c['xouts'] = expand_case(c)['outs']
+            c['xcomps'] = [[x['stage'], x['name']] for x in expand_case(c)['comps']]
     if parallel and len(cases) > 4:
         with multiprocessing.get_context('fork').Pool(min(12, NPROC)) as pool:
             observations = pool.map(_drive, cases, chunksize=2)
@@ -811,8 +1027,19 @@ def explore(ctx, cases, parallel=True):
         observations = [_drive(c) for c in cases]
     terms, owners = [], []
     mterms, mowners = [], []
-    for case, obs in zip(cases, observations):
+    for raw, obs in zip(cases, observations):
+        # replication inside the loop: the statement and the model are read on the document with the replicas
+        # written out (expand_case); the real code was given the document with workflowAttributes.replicate
+        case = expand_case(raw) if is_replicated(raw) else raw
         k = case['k']
+        if is_replicated(raw):
+            ctx.count('looped component replicated (workflowAttributes.replicate inside the DoWhile)')
+            ctx.count('... number of replicas from: %s' % raw.get('rep_source', 'corpus'))
+            ctx.count('... import stage %s 0' % ('>' if raw['S'] else '='))
+            if raw.get('platform'):
+                ctx.count('... on a platform other than default')
+            if any(o.get('agg') for o in raw['outs']):
+                ctx.count('... aggregating consumer outside the loop reads every replica')
         nontrivial = k >= 2 and bool(case['loopb']) and len(case['comps']) >= 2
         nloops = len(c05_impl.loops_of(case))
         if nloops > 1:
@@ -834,7 +1061,9 @@ def explore(ctx, cases, parallel=True):
         if any((l['cond'][0] or 0) > min(c['stage'] for c in l['comps']) for l in cl):
             ctx.count('condition produced in a LATER stage of the loop body' +
                       (' (driven by a Controller)' if case.get('ctl') else ''))
-        canonical = dict(case)
+        canonical = dict(raw)
+        canonical.pop('xouts', None)
+        canonical.pop('xcomps', None)
         ctx.case(canonical, nontrivial)
         ctx.count('k=%d' % k)
         ctx.count('looped_components=%d' % len(case['comps']))
@@ -868,7 +1097,7 @@ def explore(ctx, cases, parallel=True):
         if case.get('ctl'):
             ctx.count('driven by a real Controller, inspect=%s' % case['ctl']['inspect'])
         for what in predicate(case, obs):
-            ctx.fail({'case': case, 'observed': _brief(obs)}, what, classes)
+            ctx.fail({'case': raw, 'observed': _brief(obs)}, what, classes)
         if 'error' in obs:
             continue
         if nloops > 1:
@@ -877,7 +1106,7 @@ def explore(ctx, cases, parallel=True):
         else:
             terms.append(c_case(case, obs))
             owners.append((case, obs))
-        ctx.sample({'case': case, 'latest': dict((p, v['latest']) for p, v in obs['placeholders'].items()),
+        ctx.sample({'case': raw, 'latest': dict((p, v['latest']) for p, v in obs['placeholders'].items()),
                     'state': obs['states'], 'resolve': obs['resolve']}, limit=3)
     bad = ctx.model_mismatches(HEADER, terms, CHECKER, chunk=12, name='c05')
     for n, i in enumerate(bad):
@@ -943,6 +1172,14 @@ def corpus():
     # a loop bound to a looped component of another loop: loads (and the first loop iterates); F5d (open): the first
     # further iteration of the bound loop is refused — reproduced on every run
     out += [chained_loops_case([]), chained_loops_case([0, 0]), chained_loops_case([0, 1])]
+    # replication inside the loop: the number of replicas is a literal / a global variable / a STAGE variable that
+    # overrides the global one (more and fewer replicas) / a stage variable alone; import stage 0 and 2 (F5e, fixed:
+    # the stage variables of an import stage > 0)
+    out += [replicated_case(2, 0, {}, {}, rep=2), replicated_case(1, 0, {'N': 2}, {}),
+            replicated_case(2, 0, {'N': 1}, {'0': {'N': 3}}), replicated_case(1, 0, {'N': 3}, {'0': {'N': 1}}),
+            replicated_case(11, 0, {}, {'0': {'N': 2}}, ctl={'start': 0, 'inspect': 'each'}),
+            replicated_case(2, 2, {'N': 1}, {'2': {'N': 2}, '0': {'N': 3}}),
+            replicated_case(1, 1, {'N': 2}, {'0': {'N': 3}}, ctl={'start': 0, 'inspect': 'end'})]
     d = os.path.join(os.path.dirname(os.path.abspath(__file__)), 'corpus', 'c05')
     if os.path.isdir(d):
         for f in sorted(os.listdir(d)):
@@ -972,6 +1209,19 @@ def run(ctx):
         while n < per_k:
             c = gen_case(rng, k)
             if args_conflict(c) or duplicate_refs(c):
+                ctx.count('generated_with_overlapping_or_duplicate_references_skipped')
+                continue
+            cases.append(c)
+            n += 1
+    # replication inside the loop: every source of the number of replicas, several k
+    rks = [0, 1, 2, 3, 10, 11] if ctx.tier == 'quick' else [0, 1, 2, 3, 9, 10, 11, 12, 20]
+    for source in sorted(set(REP_SOURCES)):
+        n = 0
+        while n < (6 if ctx.tier == 'quick' else 14):
+            c = gen_rcase(rng, rng.choice(rks), source)
+            e = expand_case(c)
+            if args_conflict(c) or args_conflict(e) or duplicate_refs(e) or \
+                    len(set((x['stage'], x['name']) for x in e['comps'])) != len(e['comps']):
                 ctx.count('generated_with_overlapping_or_duplicate_references_skipped')
                 continue
             cases.append(c)
